@@ -1108,6 +1108,85 @@ def check_delta(ctx, strict_mod, n):
                     ctx.broken("correspondence:c16:delta", "pairs=%s impl=%s model=%s" % (key, (str(md), [str(b) for b in bds]), m and (str(m[0]), [str(b) for b in m[1]])))
 
 
+# ------------------------------------------------------------------ simplex_strict.Simplex: correspondence with the Lean model
+def check_strict_model(ctx, strict_mod, systems, label):
+    """The real `simplex_strict.Simplex` against the Lean model of it (StrictSimplexModel), step by
+    step as for the non-strict solver; values are delta-rationals (x, y)."""
+    rng = ctx.rng("strict-model-" + label)
+    runs, lines = [], []
+    for rows, shape in systems:
+        enc = choose_enc(rng, rows)
+        strict = [rng.random() < 0.4 for _ in rows]
+        s = strict_mod.Simplex()
+        try:
+            s.add_ineqs(*build_ineqs(strict_mod, rows, enc, strict))
+        except Exception as e:  # noqa
+            ctx.count("strict-model:raise:" + type(e).__name__)
+            continue
+
+        def snap():
+            return (sorted(var_id(v) for v in s.basic), {var_id(v): (Fraction(p.x), Fraction(p.y)) for v, p in s.mapping.items()})
+        init = snap()
+        atoms = [("le" if isinstance(a, strict_mod.leq_atom) else "ge", var_id(a.var_name), (Fraction(a[1].x), Fraction(a[1].y))) for a in s.atom]
+        snaps, n = [], [0]
+        orig_check, orig_up, orig_lo = s.check, s.assert_upper, s.assert_lower
+
+        def check():
+            r = orig_check()
+            snaps.append(snap())
+            return r
+
+        def up(x, c):
+            n[0] += 1
+            return orig_up(x, c)
+
+        def lo(x, c):
+            n[0] += 1
+            return orig_lo(x, c)
+        s.check, s.assert_upper, s.assert_lower = check, up, lo
+        try:
+            with time_limit(20):
+                s.handle_assertion()
+            outcome = ("sat",)
+        except Timeout:
+            outcome = ("timeout",)
+        except strict_mod.UNSATException:
+            outcome = ("unsat", var_id(s.wrong_var))
+        except (strict_mod.AssertUpperException, strict_mod.AssertLowerException):
+            outcome = ("conflict", n[0] - 1)
+        except Exception as e:  # noqa
+            ctx.count("strict-model:raise:" + type(e).__name__)
+            continue
+        runs.append((rows, enc, strict, (outcome, atoms, init, snaps)))
+        qs = []
+        for k, r in enumerate(rows):
+            st = strict[k]
+            if enc[k]:
+                qs.append(["ge", [[100 + i, c] for i, c in enumerate(r[:-1]) if c != 0], str(-r[-1]), "1" if st else "0"])
+            else:
+                qs.append(["le", [[100 + i, -c] for i, c in enumerate(r[:-1]) if c != 0], str(r[-1]), "-1" if st else "0"])
+        lines.append(sexp.dumps(["ssimplex", SIMPLEX_FUEL, qs]))
+    out = ctx.lean_driver(EXE, lines) if lines else []
+    ndis = 0
+    for idx, (rows, enc, strict, impl) in enumerate(runs):
+        ctx.case(("strict-model", rows_key(rows), tuple(enc), tuple(strict)), nontrivial=len(impl[3]) >= 2)
+        ctx.count("strict-model:%s:%s" % (label, impl[0][0]))
+        if out is None or impl[0][0] == "timeout":
+            continue
+        x = sexp.loads(out[idx])
+        if x == "bad-op":
+            m = None
+        else:
+            oc = x[0]
+            states = [(sorted(int(b) for b in st[0]), {int(v): (Fraction(a), Fraction(b)) for v, a, b in st[1]}) for st in x[2:]]
+            m = ((oc,) if isinstance(oc, str) else (oc[0], int(oc[1])), [(k, int(v), (Fraction(a), Fraction(b))) for k, v, a, b in x[1]], states[0], states[1:])
+        if m != impl:
+            ndis += 1
+            if ndis <= 3:
+                ctx.broken("correspondence:c16:strict-simplex", "rows=%s enc=%s strict=%s impl=%s model=%s" % (rows, enc, strict, (impl[0],), (m[0] if m else None,)))
+                ctx.coverage["disagreements_checked"] += 1
+
+
 def run_strict(strict_mod, rows, enc, strict):
     s = strict_mod.Simplex()
     try:
@@ -1386,6 +1465,83 @@ def check_simplex_hol(ctx, systems, label):
             report(ctx, "simplexhol:wrong-unsat", key, "SimplexHOLWrapper proves false from %s, which Z3 (LRA) finds satisfiable" % rows, rp)
 
 
+# ------------------------------------------------------------------ the HOL macros (simplex_macro, strict_simplex_macro, integer_simplex)
+def check_macros(ctx, systems, label):
+    """`SimplexMacro`, `StrictSimplexMacro`, `IntegerSimplexMacro`.get_proof_term on the constraints
+    written as HOL terms over variables x_0, x_1, ... (names that collide with the macros' internal
+    renaming on purpose).  A returned proof term must be accepted by theory.check_proof, conclude
+    false, have every hypothesis literally among the given terms, and the system must indeed be
+    unsatisfiable (Z3); a returned assignment must satisfy the constraints.  An exception is no
+    answer (counted)."""
+    from logic import context
+    from syntax.parser import parse_term
+    from kernel import theory, report as kreport
+    from kernel.proofterm import ProofTerm
+    from kernel.term import false
+    from prover import simplex, simplex_strict
+    rng = ctx.rng("macros-" + label)
+
+    def row_str(r, op):
+        ts = [("x_%d" % i if c == 1 else "%d * x_%d" % (c, i)) for i, c in enumerate(r[:-1]) if c != 0]
+        return " + ".join(ts) + " %s %d" % (op, -r[-1])
+    for kind in ("real", "strict", "int"):
+        context.set_context('real', vars={"x_%d" % i: ('int' if kind == "int" else 'real') for i in range(5)})
+        for rows, shape in systems:
+            rows = [r for r in rows if any(r[:-1])]
+            if not rows:
+                continue
+            nv = len(rows[0]) - 1
+            strict = [kind == "strict" and rng.random() < 0.5 for _ in rows]
+            strs = [row_str(r, ">" if st else ">=") for r, st in zip(rows, strict)]
+            key = kind + ":" + json.dumps(strs)
+            ctx.case(("macro", key), nontrivial=len(rows) >= 2)
+            rp = {"kind": "macro", "macro": kind, "rows": rows, "strict": strict, "terms": strs}
+            orig_deque = simplex.deque
+            simplex.deque = BudgetDeque          # integer_simplex runs branch_and_bound, whose bare `except:` swallows a timeout
+            try:
+                with time_limit(120):
+                    tms = [parse_term(t) for t in strs]
+                    if kind == "real":
+                        res = simplex.SimplexMacro().get_proof_term(args=tms)
+                    elif kind == "strict":
+                        res = simplex_strict.StrictSimplexMacro().get_proof_term(args=tms)
+                    else:
+                        res = simplex.IntegerSimplexMacro().get_proof_term(args=tms)
+                        if BudgetDeque.last.exhausted:
+                            ctx.count("macro:int:gave-up")
+                            continue
+            except Timeout:
+                ctx.count("macro:%s:timeout" % kind)
+                continue
+            except Exception as e:  # noqa
+                ctx.count("macro:%s:raise:%s" % (kind, type(e).__name__))
+                continue
+            finally:
+                simplex.deque = orig_deque
+            if isinstance(res, ProofTerm):
+                ctx.count("macro:%s:proof" % kind)
+                try:
+                    with time_limit(300):
+                        rpt = kreport.ProofReport()
+                        th = theory.check_proof(res.export(), rpt)
+                except Timeout:
+                    continue
+                except Exception as e:  # noqa
+                    report(ctx, "macro:proof-rejected", key, "%s macro on %s returns a proof term that check_proof rejects: %s %s" % (kind, strs, type(e).__name__, str(e)[:150]), rp)
+                    continue
+                if th.prop != false or len(rpt.gaps) > 0:
+                    report(ctx, "macro:not-false", key, "%s macro on %s concludes %s (gaps %d)" % (kind, strs, th.prop, len(rpt.gaps)), rp)
+                foreign = [str(h) for h in th.hyps if h not in tms]
+                if foreign:
+                    report(ctx, "macro:foreign-hypothesis", key, "%s macro on the given constraints %s returns a theorem with hypotheses that are not among them: %s" % (kind, strs, foreign), rp)
+                if z3_sat(rows, integer=(kind == "int"), strict=strict) is True:
+                    report(ctx, "macro:wrong-unsat", key, "%s macro proves false from %s, which Z3 finds satisfiable" % (kind, strs), rp)
+            elif isinstance(res, dict):
+                ctx.count("macro:%s:sat" % kind)
+            else:
+                ctx.count("macro:%s:other" % kind)
+
+
 # ------------------------------------------------------------------ main
 def run(ctx):
     ctx.coverage["rule"] = (
@@ -1466,6 +1622,7 @@ def run(ctx):
     rng = ctx.rng("strict")
     sys4 = [gen_system(rng) for _ in range(ctx.scale(800, 5000))]
     check_strict(ctx, simplex_strict, sys4, "random")
+    check_strict_model(ctx, simplex_strict, sys4, "random")
     check_delta(ctx, simplex_strict, ctx.scale(2000, 30000))
     ctx.log("strict simplex stream done (%d)" % len(sys4))
     # 5. proof terms
@@ -1478,6 +1635,10 @@ def run(ctx):
     sys6 = [gen_small(rng) for _ in range(ctx.scale(400, 3000))] + [gen_system(rng) for _ in range(ctx.scale(200, 1500))]
     check_simplex_hol(ctx, sys6, "random")
     ctx.log("SimplexHOLWrapper stream done (%d)" % len(sys6))
+    rng = ctx.rng("macros")
+    sys7 = [gen_small(rng) for _ in range(ctx.scale(80, 800))]
+    check_macros(ctx, sys7, "random")
+    ctx.log("HOL macro stream done (3 x %d)" % len(sys7))
 
 
 def load_simplex_corpus(ctx):
@@ -1516,6 +1677,9 @@ def replay(ctx, rp):
                 check_bb(ctx, simplex, [(rows, "replay")], "replay%d" % _)
             else:
                 check_strict(ctx, simplex_strict, [(rows, "replay")], "replay%d" % _)
+    elif r.get("kind") == "macro":
+        for _ in range(6):
+            check_macros(ctx, [(rows, "replay")], "replay%d" % _)
     elif r.get("kind") == "omegahol":
         for _ in range(8):               # the surface forms of the constraints are drawn again
             check_omega_hol(ctx, [(rows, "replay")], "replay%d" % _)
@@ -1563,8 +1727,18 @@ MANIFEST = {
             "multi_delta; own correspondence stream): strict_delta_sound (multi_delta is positive and makes every comparison p1 <= p2 of "
             "pairs true for the rationals x + y*delta) and strict_sat_sound_partial (IF a delta-assignment satisfies all constraints "
             "lexicographically THEN x + y*multi_delta satisfies them, strict ones strictly; that the strict solver establishes the "
-            "premise is not proved), the strict Simplex class itself (delta-pairs; Z3 and exact witness evaluation), the "
-            "proof-producing wrappers (checked by theory.check_proof). In addition every answer of the real Simplex is judged per run: "
+            "premise was not proved then); the strict Simplex class IS now modelled too (same tableau, delta-rational values and bounds, "
+            "operations componentwise over the rational model; own step-by-step correspondence stream) with strict_check_sat_sound / "
+            "strict_check_unsat_sound (check(): SAT => both components of mapping satisfy the rows and every variable is within its "
+            "bounds in the delta-order; UNSAT => rows + bounds have no delta-rational solution) and strict_handle_assertion_sat_sound / "
+            "strict_handle_assertion_unsat_sound (the same through handle_assertion, for the asserted atoms). STILL MISSING for a full "
+            "strict_sat_sound / strict_unsat_sound: the link between the atoms and slack rows add_ineqs creates and the given constraints "
+            "for the strict solver (proved for the non-strict one), so strict_sat_sound_partial keeps its name; NOT modelled: the strict "
+            "proof-producing wrapper (its answers: Z3 and exact witness evaluation), the "
+            "proof-producing wrappers and the macros simplex_macro / strict_simplex_macro / integer_simplex (every proof term they return "
+            "is checked by theory.check_proof: concludes false, no gaps, hypotheses literally among the given terms; Z3 confirms the verdict). "
+            "Termination of check under Bland's rule and completeness of the Omega test for exact eliminations were NOT attempted in Lean "
+            "(stated assumptions). In addition every answer of the real Simplex is judged per run: "
             "witnesses go through checkWitness(Q), 'unsatisfiable' answers are certified by checkFarkas whenever Farkas multipliers "
             "can be read from the solver's explanation (internal fields; if not, or if they do not check, the verdict is decided by Z3 - only "
             "a wrong verdict is a violation), branch-and-bound / strict verdicts are compared with Z3 and brute force. OmegaHOL "
@@ -1580,6 +1754,10 @@ MANIFEST = {
     "design_ref": "DESIGN.md 4/C16",
 }
 FINDINGS = [
+    {"status": "fixed", "key": "macro:foreign-hypothesis", "commit": "fixes/C16-6.patch",
+     "what": "simplex_macro on [-1 * x_1 + -2 * x_2 >= -1, x_1 + 2 * x_2 >= 2] returned x_2 + 2 * x_2 >= 2, -1 * x_2 + -2 * x_2 >= -1 |- false: "
+             "term_to_ineq renames variables to x_0, x_1, ... and translates back one variable after the other, so given variables with such "
+             "names are conflated (hypotheses are not the given constraints, or the back translation fails)"},
     {"status": "fixed", "key": "simplex:nontermination:[[2,3,-2,0,0],[-1,-1,-1,-4,-1],[-4,-3,-1,4,2],[-3,2,-3,-2,1],[1,0,2,1,0],[1,-2,-1,2,2],[-3,1,0,1,0],[2,0,1,1,0]]/glllllgg",
      "commit": "a056458",
      "what": "Simplex.check() repaired the LAST violated basic variable with the FIRST suitable non-basic one and cycles: "
